@@ -507,8 +507,12 @@ func c18sPeerCases() []c18sPeerCase {
 	add("timers", func(p *api.Peer) {
 		p.Timers = &api.Timers{Config: &api.TimersConfig{ConnectRetry: 10, HoldTime: 30, KeepaliveInterval: 10, MinimumAdvertisementInterval: 5, IdleHoldTimeAfterReset: 7}}
 	})
-	add("timers-hold0", func(p *api.Peer) { p.Timers = &api.Timers{Config: &api.TimersConfig{HoldTime: 0, KeepaliveInterval: 0}} })
-	add("timers-hold3", func(p *api.Peer) { p.Timers = &api.Timers{Config: &api.TimersConfig{HoldTime: 3, KeepaliveInterval: 1}} })
+	add("timers-hold0", func(p *api.Peer) {
+		p.Timers = &api.Timers{Config: &api.TimersConfig{HoldTime: 0, KeepaliveInterval: 0}}
+	})
+	add("timers-hold3", func(p *api.Peer) {
+		p.Timers = &api.Timers{Config: &api.TimersConfig{HoldTime: 3, KeepaliveInterval: 1}}
+	})
 	add("transport", func(p *api.Peer) {
 		p.Transport = &api.Transport{PassiveMode: true, LocalAddress: "10.0.0.254", LocalPort: 1790, RemotePort: 1791, TcpMss: 1400, IpTos: 192, BindInterface: "lo"}
 	})
@@ -519,7 +523,9 @@ func c18sPeerCases() []c18sPeerCase {
 		a.LongLivedGracefulRestart = &api.LongLivedGracefulRestart{Config: &api.LongLivedGracefulRestartConfig{Enabled: true, RestartTime: 3600}}
 		p.AfiSafis = []*api.AfiSafi{a}
 	})
-	add("gr-helper-only", func(p *api.Peer) { p.GracefulRestart = &api.GracefulRestart{Enabled: true, HelperOnly: true, RestartTime: 4095} })
+	add("gr-helper-only", func(p *api.Peer) {
+		p.GracefulRestart = &api.GracefulRestart{Enabled: true, HelperOnly: true, RestartTime: 4095}
+	})
 	for _, m := range []struct {
 		n   string
 		rx  bool
@@ -627,8 +633,14 @@ func c18sAlignAfiSafis(sent, got *api.Peer) {
 
 func c18sPeers(t *testing.T, r *vr.Report, only string) {
 	cases := c18sPeerCases()
+	nCombo := 0
+	for _, c := range cases {
+		if strings.HasPrefix(c.Name, "combo/") {
+			nCombo++
+		}
+	}
 	r.Bounds["peers"] = fmt.Sprintf("%d api.Peer values: base, every optional sub-message present-but-empty, every configuration leaf x boundary values of its kind "+
-		"(bool true; uint32 1,255,256,65535,65536,4200000000,2^32-1; uint64 1,3,90,65535,65536,2^32-1,2^40; every enum value; strings) one leaf at a time, %d hand-written combinations", len(cases), 27)
+		"(bool true; uint32 1,255,256,65535,65536,4200000000,2^32-1; uint64 1,3,90,65535,65536,2^32-1,2^40; every enum value; strings) one leaf at a time, %d hand-written combinations (thorough: + every pair of leaves)", len(cases), nCombo)
 	pn := c18sRun(t, r, nil, func(x *c18sWorld) {
 		// objects the peers refer to
 		_ = x.w.s.AddPolicy(x.ctx, &api.AddPolicyRequest{Policy: &api.Policy{Name: "c18pol"}})
@@ -851,7 +863,7 @@ func c18sStatements() []*api.Statement {
 		RpkiResult: api.ValidationState_VALIDATION_STATE_VALID, RouteType: api.Conditions_ROUTE_TYPE_EXTERNAL, Origin: api.OriginType_ORIGIN_TYPE_EGP,
 		NextHopInList: []string{"10.0.0.1"}, AfiSafiIn: []*api.Family{c18sFamily(bgp.RF_IPv4_UC)}, LocalPrefEq: &api.LocalPrefEq{Value: 100}, MedEq: &api.MedEq{Value: 5}},
 		&api.Actions{RouteAction: api.RouteAction_ROUTE_ACTION_ACCEPT, Community: &api.CommunityAction{Type: api.CommunityAction_TYPE_ADD, Communities: []string{"65000:100"}},
-			ExtCommunity: &api.CommunityAction{Type: api.CommunityAction_TYPE_REPLACE, Communities: []string{"rt:65000:100"}},
+			ExtCommunity:   &api.CommunityAction{Type: api.CommunityAction_TYPE_REPLACE, Communities: []string{"rt:65000:100"}},
 			LargeCommunity: &api.CommunityAction{Type: api.CommunityAction_TYPE_REMOVE, Communities: []string{"65000:1:2"}},
 			Med:            &api.MedAction{Type: api.MedAction_TYPE_MOD, Value: -10}, AsPrepend: &api.AsPrependAction{Asn: 65001, Repeat: 2},
 			Nexthop: &api.NexthopAction{Self: true}, LocalPref: &api.LocalPrefAction{Value: 200}, OriginAction: &api.OriginAction{Origin: api.OriginType_ORIGIN_TYPE_IGP}})
